@@ -9,13 +9,13 @@ m = {
  "setup_cmd": "cd /verif/gocv && GOFLAGS=-mod=mod GOPROXY=off GOSUMDB=off GOTOOLCHAIN=local go1.26.8 build -o /verif/bin/gocv .",
  "hooks": {
   "guard": "verif",
-  "enable": "contracts are read from /verif/contracts/*.gocv; mirror files /repo/**/zz_contracts_verif.go (comment-only, //go:build verif) carry the same text next to the code; no executable line of /repo is behind the tag",
+  "enable": "no hooks: the contracts are plain text under /verif/contracts/*.gocv keyed by package, function and loop ordinal; nothing in /repo is behind the verif tag and the checks build /repo exactly as it is (go/packages with -tags verif, which selects no file)",
   "baseline_off_cmd": "for m in $(cat /w/out/gomods.txt); do MF=$(cd /repo/$m && . /w/out/goenv.sh && gomodflag); (cd /repo/$m && go test $MF -json -vet=off -count=1 -timeout 25m ./...); done",
   "source_commits": hooks_commits,
   "add_only": True
  },
  "engines": [{"name": "gocv", "path": "/verif/gocv", "serves_properties": sorted(CLAIMS.keys()),
-   "kind_free_text": "contract-based deductive verifier for Go written for this task: VC generation by symbolic execution of the typed AST of /repo's current tree (go/packages + go/types; heap model with per-field maps, loop invariants, frames, ghost state), contracts in /verif/contracts/*.gocv, obligations discharged by a z3 4.8.12 / z3 5.1.0 / cvc5 1.0.3 portfolio; failed obligations are replayed on the real code through go test -overlay where a replay harness exists"}],
+   "kind_free_text": "contract-based deductive verifier for Go written for this task: VC generation by symbolic execution of the typed AST of /repo's current tree (go/packages + go/types; heap model with per-field maps, loop invariants, frames, ghost state), contracts in /verif/contracts/*.gocv, obligations discharged by a z3 4.8.12 / z3 5.1.0 / cvc5 1.0.3 portfolio; a failed obligation is reported by name with the solver output (and its model of the inputs where it gave one) and the per-property batteries of in-package tests registered in replay/harness.json are run against the tree under check through go test -overlay; when one fails, the violation is reported as reproduced on the real code with the failing input printed by the test"}],
  "checks": [], "not_applicable": [],
  "notes": "See DESIGN.md. Every check re-parses /repo's working tree on every run; known_findings.json lists genuine defects (none open) and fixed ones."
 }
